@@ -265,7 +265,17 @@ func ruleC01Template(c *Ctx, r *Rep) {
 						}
 					}
 				}
-				variants = append(variants, tplExplore(c, fd, bind, inl, 1500)...)
+				vs := tplExplore(c, fd, bind, inl, 1500)
+				label := ""
+				if e, ok := in["e"]; ok && e.k == tvRec {
+					if nm, ok := e.fields["Name"]; ok && nm.k == tvStr {
+						label = e.desc + ":" + nm.s
+					}
+				}
+				for k := range vs {
+					vs[k].Label = label
+				}
+				variants = append(variants, vs...)
 			}
 		}
 		ok, unsup := 0, 0
@@ -280,6 +290,20 @@ func ruleC01Template(c *Ctx, r *Rep) {
 			msg := v.AssertProblem
 			if msg == "" {
 				msg = tplCheck(v.Items, root, v.Owned)
+			}
+			if msg == "" && v.Label == "Func:path" && strings.Contains(strings.Join(v.Choices, " "), "fn.accept(len(e.Args))=1") {
+				// (only the variants that reach the native case: a user or jq-defined function named path is an ordinary call)
+				// path(f) is the bracket oppathbegin … oppathend around f, whatever f is: a shortcut that emits a constant
+				// path skips the validation that the path exists in the input
+				seq, _ := tplToBC(v.Items)
+				hasBegin, hasEnd := false, false
+				for _, in := range seq {
+					hasBegin = hasBegin || in.Op == "oppathbegin"
+					hasEnd = hasEnd || in.Op == "oppathend"
+				}
+				if !hasBegin || !hasEnd {
+					msg = "the template of path(f) has no oppathbegin/oppathend bracket: the path is produced without evaluating f against the input, so `{\"a\":1} | path(.a.b)` yields [\"a\",\"b\"] where f (and getpath) fail, and try cannot catch what is no longer raised"
+				}
 			}
 			if msg == "" {
 				msg = tplSiblingRegions(v.HoleLog)
@@ -341,6 +365,32 @@ func tplCheck(items []tplItem, root tplRoot, owned map[string]bool) string {
 	probs, reached, _, ends := bcVerifyFrom(seq, 0, root.entry, false)
 	if len(probs) > 0 {
 		return fmt.Sprintf("[%d] %s", probs[0].PC, probs[0].Msg)
+	}
+	// exp nesting of the sub-queries whose outputs must stay path-trackable (a bracket turns navigation into plain evaluation)
+	expAt := append([]int(nil), bcLastExp...)
+	for i, it := range items {
+		if !it.isHole || !reached[i] || it.chain != root.fn || i >= len(expAt) {
+			continue
+		}
+		for _, f := range tplExpZero[root.fn] {
+			if a := it.arg; (strings.HasSuffix(a, "."+f) || a == f) && expAt[i] != 0 {
+				return fmt.Sprintf("[%d] %s is compiled inside an opexpbegin/opexpend bracket (nesting %d): its navigation is no longer recorded as a path, so a path expression built on this construct (path(limit(2; .a,.b)), del(first(…)), limit(1; .a[]) |= …) raises a spurious invalid-path error or silently updates the wrong place", i, a, expAt[i])
+			}
+		}
+	}
+	// the instruction that defines the construct is present in every template
+	if need, ok := tplDefining[root.fn]; ok {
+		for _, op := range need {
+			found := false
+			for _, in := range seq {
+				if in.Op == op {
+					found = true
+				}
+			}
+			if !found {
+				return fmt.Sprintf("the template contains no %s: %s", op, tplDefiningWhy[root.fn])
+			}
+		}
 	}
 	for i, in := range seq {
 		if in.Op == "opjumpifnot" && in.Target == i+1 {
@@ -1085,4 +1135,30 @@ func describeTerm(t string, items []tplItem) string {
 		return "the result of instruction " + t[strings.Index(t, "#")+1:]
 	}
 	return t
+}
+
+
+// tplExpZero: sub-queries that jq keeps path-transparent (their outputs are locations when their input is).
+var tplExpZero = map[string][]string{
+	"compileForeach": {"Query", "Pattern", "Extract"},
+	"compileReduce":  {"Update"},
+	"compileComma":   {"l", "r"},
+	"compileAlt":     {"r"},
+	"compileTry":     {"Body"},
+	"compileLabel":   {"Body"},
+	"compileIf":      {"Then", "Else"},
+}
+
+// tplDefining: opcodes without which the lowering is not that construct at all.
+var tplDefining = map[string][]string{
+	"compileTry":   {"opforktrybegin", "opforktryend"},
+	"compileLabel": {"opforklabel"},
+	"compileComma": {"opfork"},
+	"compileAlt":   {"opfork"},
+}
+var tplDefiningWhy = map[string]string{
+	"compileTry":   "errors of the body would not be intercepted, or errors raised after the body would be",
+	"compileLabel": "break $label would find nothing to break out of",
+	"compileComma": "the second operand would never be evaluated",
+	"compileAlt":   "the alternative would never be evaluated",
 }
